@@ -112,6 +112,14 @@ def write_events(ctx, objs):
     for n, (kind, expect, obj, label) in enumerate(objs):
         hs = HEADER_SETS[n % len(HEADER_SETS)] if n % 4 == 0 or not label.startswith('literal') else []
         obj.ascii_headers.clear()
+        if n % 3 == 1:
+            # history: the object has been armored before with other headers; the text is a function of the current state only
+            obj.ascii_headers['Comment'] = 'an earlier export'
+            try:
+                str(obj), bytes(obj)
+            except Exception:
+                pass
+            obj.ascii_headers.clear()
         for k_, v_ in hs:
             obj.ascii_headers[k_] = v_
         try:
